@@ -37,7 +37,6 @@ import (
 	"github.com/google/certificate-transparency-go/x509util"
 	"github.com/google/trillian"
 	"github.com/google/trillian/monitoring"
-	"github.com/google/trillian/types"
 	"google.golang.org/grpc/codes"
 	"google.golang.org/grpc/status"
 	"google.golang.org/protobuf/encoding/prototext"
@@ -619,8 +618,8 @@ func getSTHConsistency(ctx context.Context, li *logInfo, w http.ResponseWriter, 
 			return li.toHTTPStatus(err), fmt.Errorf("backend GetConsistencyProof request failed: %s", err)
 		}
 
-		var currentRoot types.LogRootV1
-		if err := currentRoot.UnmarshalBinary(rsp.GetSignedLogRoot().GetLogRoot()); err != nil {
+		currentRoot, rootErr := unmarshalLogRoot(rsp.GetSignedLogRoot())
+		if rootErr != nil {
 			return http.StatusInternalServerError, fmt.Errorf("failed to unmarshal root: %v", rsp.GetSignedLogRoot().GetLogRoot())
 		}
 		// We can get here with a tree size too small to satisfy the proof.
@@ -696,8 +695,8 @@ func getProofByHash(ctx context.Context, li *logInfo, w http.ResponseWriter, r *
 		return li.toHTTPStatus(err), fmt.Errorf("backend GetInclusionProofByHash request failed: %s", err)
 	}
 
-	var currentRoot types.LogRootV1
-	if err := currentRoot.UnmarshalBinary(rsp.GetSignedLogRoot().GetLogRoot()); err != nil {
+	currentRoot, rootErr := unmarshalLogRoot(rsp.GetSignedLogRoot())
+	if rootErr != nil {
 		return http.StatusInternalServerError, fmt.Errorf("failed to unmarshal root: %v", rsp.GetSignedLogRoot().GetLogRoot())
 	}
 	// We could fail to get the proof because the tree size that the server has
@@ -767,8 +766,8 @@ func getEntries(ctx context.Context, li *logInfo, w http.ResponseWriter, r *http
 		return httpStatus, err
 	}
 
-	var currentRoot types.LogRootV1
-	if err := currentRoot.UnmarshalBinary(rsp.GetSignedLogRoot().GetLogRoot()); err != nil {
+	currentRoot, rootErr := unmarshalLogRoot(rsp.GetSignedLogRoot())
+	if rootErr != nil {
 		return http.StatusInternalServerError, fmt.Errorf("failed to unmarshal root: %v", rsp.GetSignedLogRoot().GetLogRoot())
 	}
 	if currentRoot.TreeSize <= uint64(start) {
@@ -875,8 +874,8 @@ func getEntryAndProof(ctx context.Context, li *logInfo, w http.ResponseWriter, r
 		return httpStatus, err
 	}
 
-	var currentRoot types.LogRootV1
-	if err := currentRoot.UnmarshalBinary(rsp.GetSignedLogRoot().GetLogRoot()); err != nil {
+	currentRoot, rootErr := unmarshalLogRoot(rsp.GetSignedLogRoot())
+	if rootErr != nil {
 		return http.StatusInternalServerError, fmt.Errorf("failed to unmarshal root: %v", rsp.GetSignedLogRoot().GetLogRoot())
 	}
 	if currentRoot.TreeSize < uint64(treeSize) {
